@@ -4,6 +4,7 @@ CONSTANTS
   Mode = "single"
   Sample = TRUE
   Runs = 40
+  ExhaustInputs = FALSE
   ViewRoots = FALSE
 SPECIFICATION MacroSpec
 INVARIANT C01Single
